@@ -2150,6 +2150,9 @@ func (s *swamp) SaveFunction(t treasure.Treasure, guardID guard.ID) treasure.Tre
 		s.sendEventToHydra(t, nil, treasure.StatusNew)
 		s.sendSwampInfo()
 
+		// the save is recorded: from here on the flags describe changes made after it
+		t.ResetChangeFlags(guardID)
+
 		// immediately write the treasure to the chroniclerInterface if the write interval is 0
 		s.mu.RLock()
 		wi := s.writeInterval
@@ -2210,6 +2213,9 @@ func (s *swamp) SaveFunction(t treasure.Treasure, guardID guard.ID) treasure.Tre
 
 		// send the event to the hydra
 		s.sendEventToHydra(t, existedTreasureObj, treasure.StatusModified)
+
+		// the save is recorded: from here on the flags describe changes made after it
+		t.ResetChangeFlags(guardID)
 
 		// immediately write the treasure to the chroniclerInterface if the write interval is 0
 		s.mu.RLock()
